@@ -472,6 +472,32 @@ var Ops = []Op{
 	}},
 }
 
+// FirstUseOps lists the ops that touch lazily initialised process-wide state (every op of an H4 instance).
+func FirstUseOps() []string {
+	seen := map[string]bool{}
+	var out []string
+	for _, in := range All() {
+		if in.Family != "H4" {
+			continue
+		}
+		for _, o := range in.ops {
+			if !seen[o] {
+				seen[o] = true
+				out = append(out, o)
+			}
+		}
+	}
+	return out
+}
+
+// RunGuarded runs one op, turning a panic into its result text.
+func RunGuarded(name string) string {
+	s, _ := guard(name, OpByName(name).F)
+	return s
+}
+
+const qInjRich = "SELECT a FROM t WHERE id = 1 OR 1=1 AND SLEEP(5) > 0 UNION SELECT NULL, NULL FROM information_schema.columns; DROP TABLE t -- x\n/* y */ SELECT LOAD_FILE('/etc/passwd')"
+
 // OpByName finds an op.
 func OpByName(n string) Op {
 	for _, o := range Ops {
@@ -521,6 +547,24 @@ var extraOps = []Op{
 	{Name: "suggest-SELCT", F: func() string { return gerrors.SuggestKeyword("SELCT") }},
 	{Name: "suggest-FORM", F: func() string { return gerrors.SuggestKeyword("FORM") }},
 	{Name: "newscanner-scansql", F: func() string { return scanText(security.NewScanner().ScanSQL(qInj)) }},
+	// a text that every lazily compiled pattern table has something to say about
+	{Name: "newscanner-scansql-rich", F: func() string { return scanText(security.NewScanner().ScanSQL(qInjRich)) }},
+	{Name: "literalscanner-scansql-rich", F: func() string {
+		return scanText((&security.Scanner{MinSeverity: security.SeverityLow}).ScanSQL(qInjRich))
+	}},
+	// a scanner built as a struct literal (exported type, exported field): the detect helpers initialise the
+	// lazily built tables themselves on that path
+	{Name: "literalscanner-scansql", F: func() string {
+		return scanText((&security.Scanner{MinSeverity: security.SeverityLow}).ScanSQL(qInj))
+	}},
+	{Name: "literalscanner-scan", F: func() string {
+		sc := &security.Scanner{MinSeverity: security.SeverityLow}
+		t, err := gosqlx.Parse(qInj)
+		if err != nil {
+			return "ERR: " + err.Error()
+		}
+		return scanText(sc.Scan(t))
+	}},
 	{Name: "newscanner-scan", F: func() string {
 		sc := security.NewScanner()
 		t, err := gosqlx.Parse(qInj)
